@@ -52,9 +52,14 @@ def main():
             runs.append({"check": "./check %s --tier quick" % prop, "result": verdict, "violating_jobs": jobs})
             if code == 1:
                 caught.append(prop + (" (" + ", ".join(jobs[:3]) + ")" if jobs else ""))
-        meta["checks_run"] = runs
-        meta["caught_by"] = caught or None
-        json.dump(meta, open(mp, "w"), indent=1)
+        if runs:
+            meta["checks_run"] = runs
+            meta["caught_by"] = caught or None
+            json.dump(meta, open(mp, "w"), indent=1)
+        else:
+            # no trial of this seed in the given logs: keep what an earlier round recorded
+            runs = meta.get("checks_run") or []
+            caught = meta.get("caught_by") or []
         rows.append((seed, meta.get("needs", "")[:110], "; ".join(caught) if caught else ("not caught" if runs else "not run"), meta.get("note", "")))
     for r in rows:
         print("| %s | %s | %s %s|" % (r[0], r[1].replace("|", "/"), r[2], ("- " + r[3] + " ") if r[3] else ""))
